@@ -167,6 +167,10 @@ impl CmdBuild {
         debug!("Executed filelist ({} milliseconds)", stopwatch.lap());
 
         if let Some(mut inc) = incremental {
+            if !self.opt.check {
+                // The outputs just written belong to this build's key.
+                metadata.build_info.output_key = Some(inc.key().to_string());
+            }
             inc.save(&pipeline::collect_diagnosed(&check_error));
             debug!("Saved fragment cache ({} milliseconds)", stopwatch.lap());
         }
